@@ -168,40 +168,52 @@ package proto
 
 //@ -- appendOnly(b, n): b.Buf grew by exactly n bytes and the old content is untouched
 //@ spec func appendOnly(b Val, n Int) Bool = len(b.Buf) == old(len(b.Buf)) + n && forall k in 0..old(len(b.Buf)) :: b.Buf[k] == old(b.Buf[k])
+//@ -- uvStable(b): a varint image lying inside the old content is still one, same value, same place
+//@ -- (a consequence of the old content being untouched; stated so that long append chains need no
+//@ -- nested quantifier reasoning)
+//@ spec func uvStable(b Val) Bool = forall P, x :: trigger(uvAt(arrayof(old(b.Buf)), P, x), uvAt(arrayof(old(b.Buf)), P, x) && offset(old(b.Buf)) <= P && P + uvsize(x) <= offset(old(b.Buf)) + old(len(b.Buf)) ==> uvAt(arrayof(b.Buf), P - offset(old(b.Buf)) + offset(b.Buf), x))
 
 //@ contract (b *Buffer) PutUInt8(x) props(C01,C17)
 //@   requires b != nil
 //@   modifies b.Buf
 //@   ensures appendOnly(b, 1) && b.Buf[old(len(b.Buf))] == x
+//@   ensures uvStable(b) {varint-images-preserved}
 //@ contract (b *Buffer) PutByte(x) props(C01,C17)
 //@   requires b != nil
 //@   modifies b.Buf
 //@   ensures appendOnly(b, 1) && b.Buf[old(len(b.Buf))] == x
+//@   ensures uvStable(b) {varint-images-preserved}
 //@ contract (b *Buffer) PutBool(v) props(C01,C17)
 //@   requires b != nil
 //@   modifies b.Buf
 //@   ensures appendOnly(b, 1) && b.Buf[old(len(b.Buf))] == ite(v, 1, 0)
+//@   ensures uvStable(b) {varint-images-preserved}
 //@ contract (b *Buffer) PutUInt16(x) props(C01,C17)
 //@   requires b != nil
 //@   modifies b.Buf
 //@   ensures appendOnly(b, 2) && forall j in 0..2 :: b.Buf[old(len(b.Buf)) + j] == byte16(x, j)
+//@   ensures uvStable(b) {varint-images-preserved}
 //@ contract (b *Buffer) PutUInt32(x) props(C01,C17)
 //@   requires b != nil
 //@   modifies b.Buf
 //@   ensures appendOnly(b, 4) && forall j in 0..4 :: b.Buf[old(len(b.Buf)) + j] == byte32(x, j)
+//@   ensures uvStable(b) {varint-images-preserved}
 //@ contract (b *Buffer) PutUInt64(x) props(C01,C17)
 //@   requires b != nil
 //@   modifies b.Buf
 //@   ensures appendOnly(b, 8) && forall j in 0..8 :: b.Buf[old(len(b.Buf)) + j] == byte64(x, j)
+//@   ensures uvStable(b) {varint-images-preserved}
 //@ contract (b *Buffer) PutUVarInt(x) props(C01,C17)
 //@   requires b != nil
 //@   modifies b.Buf
 //@   ensures appendOnly(b, uvsize(x)) && forall j in 0..uvsize(x) :: b.Buf[old(len(b.Buf)) + j] == uvbyte(x, j)
+//@   ensures uvStable(b) {varint-images-preserved}
 //@   ensures uvAt(arrayof(b.Buf), offset(b.Buf) + old(len(b.Buf)), x) {varint-image}
 //@ contract (b *Buffer) PutRaw(v) props(C01,C17)
 //@   requires b != nil
 //@   modifies b.Buf
 //@   ensures appendOnly(b, len(v)) && forall j in 0..len(v) :: b.Buf[old(len(b.Buf)) + j] == v[j]
+//@   ensures uvStable(b) {varint-images-preserved}
 
 // ---------------------------------------------------------------------------
 // Reader primitives, byte level (C01, C06, C07, C08, C17).
@@ -436,6 +448,7 @@ package proto
 //@   requires b != nil
 //@   modifies b.Buf
 //@   ensures appendOnly(b, uvsize(len(s)) + len(s)) {append-only}
+//@   ensures uvStable(b) {varint-images-preserved}
 //@   ensures forall j in 0..uvsize(len(s)) :: b.Buf[old(len(b.Buf)) + j] == uvbyte(len(s), j) {length-prefix}
 //@   ensures forall j in 0..len(s) :: b.Buf[old(len(b.Buf)) + uvsize(len(s)) + j] == s[j] {bytes}
 //@   ensures uvAt(arrayof(b.Buf), offset(b.Buf) + old(len(b.Buf)), len(s)) {varint-image}
@@ -443,11 +456,13 @@ package proto
 //@   requires b != nil
 //@   modifies b.Buf
 //@   ensures appendOnly(b, uvsize(u64(x))) && forall j in 0..uvsize(u64(x)) :: b.Buf[old(len(b.Buf)) + j] == uvbyte(u64(x), j)
+//@   ensures uvStable(b) {varint-images-preserved}
 //@   ensures uvAt(arrayof(b.Buf), offset(b.Buf) + old(len(b.Buf)), u64(x)) {varint-image}
 //@ contract (b *Buffer) PutLen(x) props(C01,C17)
 //@   requires b != nil && 0 <= x
 //@   modifies b.Buf
 //@   ensures appendOnly(b, uvsize(x)) && forall j in 0..uvsize(x) :: b.Buf[old(len(b.Buf)) + j] == uvbyte(x, j)
+//@   ensures uvStable(b) {varint-images-preserved}
 //@   ensures uvAt(arrayof(b.Buf), offset(b.Buf) + old(len(b.Buf)), x) {varint-image}
 
 // remaining Reader primitives (signed / wide / float views of the unsigned readers)
@@ -507,9 +522,10 @@ package proto
 // readers over in-memory buffers (used by the round-trip lemmas)
 
 //@ import io io
-//@ contract NewReader(rd) (r) props(C17)
+//@ contract NewReader(rd) (r) props(C08,C17)
 //@   requires rd != nil
 //@   ensures r != nil && r.in == rd.in && r.pos == rd.pos && r.end == rd.end && r.failed == rd.failed && r.reliable == rd.reliable {same-stream}
+//@   ensures [internal] r.decompressed != nil && r.decompressed.reader == r.data [C08] {decompressor-reads-through-the-same-buffered-reader}
 //@ contract (b *Buffer) Reader() (r) props(C17)
 //@   requires b != nil
 //@   ensures r != nil && r.pos == 0 && r.end == len(b.Buf) && !r.failed && r.reliable {fresh-reader}
